@@ -397,6 +397,48 @@ func checkValue(c Case, env map[string]any, pos []string) error {
 			}
 		}
 	}
+	if c.Fam == "expr" {
+		// second twin: the blanks INSIDE the string literals changed (a different expression with
+		// the same tokens), then the expression itself with the blanks OUTSIDE literals doubled
+		// (same meaning); both go through the same engine before the expression proper
+		// (a failure of the expression proper names what ran before it on the engine)
+		type pre struct {
+			text  string
+			want  any
+			known bool
+		}
+		var pres []pre
+		if bt, changed := blankTwin(*c.E); changed {
+			if bv, err := eval(bt, env); err == nil {
+				_, u := bv.(unknown)
+				pres = append(pres, pre{bt.Text(), bv, !u})
+			}
+		}
+		if w := c.E.WideText(); w != src {
+			pres = append(pres, pre{w, want, known})
+		}
+		for i, pr := range pres {
+			after := ""
+			if i > 0 {
+				after = fmt.Sprintf(" (rendered on the same engine after `%s`)", pres[0].text)
+			}
+			for _, p := range []string{posInterp, posIf} {
+				if !contains(pos, p) || !pr.known {
+					continue
+				}
+				o, herr := observe(eng, p, pr.text)
+				if herr != nil {
+					return fmt.Errorf("`%s` in position %s (env %d): %v", pr.text, p, c.Env, herr)
+				}
+				if o.err != nil {
+					return fmt.Errorf("`%s` in position %s (env %d): render failed: %v; the expression is well-formed and every path resolves; conventional value %v (%T)", pr.text, p, c.Env, o.err, pr.want, pr.want)
+				}
+				if (o.present && !sameValue(o.text, pr.want)) || (o.hasBool && o.truthy != truthy(pr.want)) {
+					return fmt.Errorf("`%s` in position %s (env %d)%s: shows %q truthy=%v, conventional evaluation gives %v (%T)", pr.text, p, c.Env, after, o.text, o.truthy, pr.want, pr.want)
+				}
+			}
+		}
+	}
 	seen := map[string]obs{}
 	var order []string
 	for _, p := range pos {
